@@ -23,13 +23,38 @@ type RecConn struct {
 	Written bytes.Buffer
 	// Chop, if set, returns the size of the next segment to write (>=1).
 	Chop func(remaining int) int
+	// AfterFirstWrite, if set, is sent in the same segment as (the rest of) the first Write: e.g. the
+	// compatibility change_cipher_spec record a TLS 1.3 client may send right after its ClientHello.
+	// FirstSplit > 0 sends that many bytes of the first Write on their own beforehand.
+	AfterFirstWrite []byte
+	FirstSplit      int
+	writes          int
 }
 
 func (c *RecConn) Write(b []byte) (int, error) {
 	c.mu.Lock()
 	c.Written.Write(b)
 	chop := c.Chop
+	c.writes++
+	first := c.writes == 1 && c.AfterFirstWrite != nil
+	if first {
+		c.Written.Write(c.AfterFirstWrite)
+	}
 	c.mu.Unlock()
+	if first {
+		rest := b
+		if c.FirstSplit > 0 && c.FirstSplit < len(b) {
+			if _, err := c.Conn.Write(b[:c.FirstSplit]); err != nil {
+				return 0, err
+			}
+			time.Sleep(30 * time.Millisecond) // the prefix is to arrive in a read of its own
+			rest = b[c.FirstSplit:]
+		}
+		if _, err := c.Conn.Write(append(append([]byte{}, rest...), c.AfterFirstWrite...)); err != nil {
+			return 0, err
+		}
+		return len(b), nil
+	}
 	if chop == nil {
 		return c.Conn.Write(b)
 	}
@@ -58,7 +83,7 @@ func (c *RecConn) Bytes() []byte {
 
 // UTLSDial performs a TLS handshake with the given utls ClientHello spec and
 // returns the connection, the negotiated protocol and the recorder.
-func UTLSDial(addr string, spec *utls.ClientHelloSpec, serverName string, chop func(int) int, local net.Addr) (*utls.UConn, *RecConn, error) {
+func UTLSDial(addr string, spec *utls.ClientHelloSpec, serverName string, chop func(int) int, local net.Addr, tweak ...func(*RecConn)) (*utls.UConn, *RecConn, error) {
 	d := net.Dialer{Timeout: 10 * time.Second, LocalAddr: local}
 	raw, err := d.Dial("tcp", addr)
 	if err != nil {
@@ -68,6 +93,9 @@ func UTLSDial(addr string, spec *utls.ClientHelloSpec, serverName string, chop f
 		tc.SetNoDelay(true)
 	}
 	rc := &RecConn{Conn: raw, Chop: chop}
+	for _, t := range tweak {
+		t(rc)
+	}
 	uc := utls.UClient(rc, &utls.Config{InsecureSkipVerify: true, ServerName: serverName}, utls.HelloCustom)
 	if err := uc.ApplyPreset(spec); err != nil {
 		raw.Close()
@@ -83,13 +111,16 @@ func UTLSDial(addr string, spec *utls.ClientHelloSpec, serverName string, chop f
 }
 
 // StdDial is a crypto/tls client with a recorder underneath.
-func StdDial(addr string, cfg *tls.Config, chop func(int) int, local net.Addr) (*tls.Conn, *RecConn, error) {
+func StdDial(addr string, cfg *tls.Config, chop func(int) int, local net.Addr, tweak ...func(*RecConn)) (*tls.Conn, *RecConn, error) {
 	d := net.Dialer{Timeout: 10 * time.Second, LocalAddr: local}
 	raw, err := d.Dial("tcp", addr)
 	if err != nil {
 		return nil, nil, err
 	}
 	rc := &RecConn{Conn: raw, Chop: chop}
+	for _, t := range tweak {
+		t(rc)
+	}
 	c := tls.Client(rc, cfg)
 	raw.SetDeadline(time.Now().Add(20 * time.Second))
 	if err := c.Handshake(); err != nil {
